@@ -1650,3 +1650,10 @@ if st != 'aborted':
 result = {'violates': bool(bad), 'counterexamples': bad[:2]}
 """
 ScriptFunction.native_witness = dict(ScriptFunction.native_witness, **{'C09.': BUDGET_WITNESS, 'body-run': BUDGET_WITNESS})
+
+
+import os as _os
+with open(_os.path.join(_os.path.dirname(_os.path.dirname(_os.path.abspath(__file__))), 'native', 'witness', 'globals_witness.py'),
+          encoding='utf-8') as _fh:
+    GLOBALS_WITNESS = _fh.read()
+ExecuteScript.native_witness = {'C04.library-added-without-overwriting-caller-names': GLOBALS_WITNESS}
